@@ -226,6 +226,9 @@ def run(repo='/repo', tier='quick'):
 
     c09f(db, res)
     c09d(db, res)
+    if tier == 'thorough':
+        from .. import typestate
+        typestate.check_sticky(db, res, 'C09.g')
     res.assumptions += ['callbacks return only documented htp_status_t codes', 'liveness (no endless DATA_OTHER ping-pong) is not decided']
     return res
 
